@@ -33,6 +33,12 @@ def run(ctx, chk):
     chk.rule("O5", "handler traits take received descriptors by value or borrowed from a server-owned vector")
     chk.rule("O6", "the received file vector is moved to its consumer or dropped on every path")
     run_on(fb, chk)
+    # descriptors held by the workers (ring kick/call/err, backend-request socket) are closed at teardown only if every
+    # worker is joined and the connection is shut down (C16/H5)
+    from vlint.report import Renamed
+    from . import c16
+    chk.rule("O7", "teardown joins every worker and shuts the connection down, releasing the descriptors they hold (C16/H5)")
+    c16.run_on(fb, Renamed(chk, {"H5": "O7"}))
     n = lambda r: len([i for i in chk.instances if i[0] == r])
     chk.floor("O2", n("O2"), 6)
     chk.floor("O4", n("O4"), 8)
